@@ -198,7 +198,7 @@ def install_builtins(E):
     # typing names are only used in annotations (dropped) and cast()
     for n in ('Any', 'Optional', 'Union', 'TypeVar', 'ClassVar', 'Callable', 'Awaitable', 'Iterable',
               'Iterator', 'AsyncIterable', 'Coroutine', 'Dict', 'MutableMapping', 'Generic', 'List',
-              'Protocol', 'Set', 'Tuple', 'Type', 'overload', 'Mapping'):
+              'Protocol', 'Set', 'Tuple', 'Type', 'overload', 'Mapping', 'Generator', 'AsyncIterator', 'Sequence'):
         B[('import', 'typing:' + n)] = VClass('typing.' + n)
     for n in ('T', 'Yields', 'AYields'):
         B[('import', '.typing:' + n)] = VClass('aiuti.typing.' + n)
